@@ -273,9 +273,11 @@ def file_level(ctx, quick, stats):
         vlib.run([harness, "--mode", "witness", "--repo", vlib.REPO, "--dir", corpus_dir, "--out", wdir], timeout=3000)
         runs.append(("witness", wdir))
         if quick:
-            sizes = ["--stride", "8", "--nmut-det", "300", "--ngen-det", "120", "--nmut", "300", "--ngen", "120"]
+            sizes = ["--stride", "8", "--nmut-det", "300", "--ngen-det", "120", "--nmut", "300", "--ngen", "120",
+                     "--nchain-det", "150", "--nchain", "100"]
         else:
-            sizes = ["--stride", "1", "--nmut-det", "10000", "--ngen-det", "4000", "--nmut", "3000", "--ngen", "1200"]
+            sizes = ["--stride", "1", "--nmut-det", "10000", "--ngen-det", "4000", "--nmut", "3000", "--ngen", "1200",
+                     "--nchain-det", "3000", "--nchain", "1500"]
         vlib.run([harness, "--mode", "all", "--repo", vlib.REPO, "--seed", str(ctx.seed), "--out", work] + sizes,
                  timeout=3000)
         runs.append(("all", work))
@@ -374,6 +376,9 @@ def file_level(ctx, quick, stats):
                           "C comments at end of line / own line / doc / file start,end, P parentheses, M commas, T token edits) and of "
                           "generated programs with comments and randomised layout. seed-dependent (VERIF_SEED): the same mutators "
                           "without class C on corpus sources whose comments were removed, and generated programs without comments. "
+                          "Both streams also contain generated operator chains (2-5 operands, mostly mixing the operators of one "
+                          "precedence level: + -, * /, comparisons) with `//` comments behind operators, as field values, list "
+                          "elements and call arguments (comments kept in the seed-dependent stream for this narrow shape). "
                           "Mutants that no longer parse are the malformed stream (must be rejected). non-trivial: corpus files and "
                           "sources longer than 200 bytes")
 
